@@ -73,6 +73,12 @@ def make_header(c):
     if c.get('rot'):
         pc = pc_matrix(c)
         h.update(PC1_1=pc[0][0], PC1_2=pc[0][1], PC2_1=pc[1][0], PC2_2=pc[1][1])
+    if c.get('pv'):                      # projection parameters (slant orthographic SIN: xi, eta)
+        h.update(PV2_1=c['pv'][0], PV2_2=c['pv'][1])
+    if c.get('lonpole') is not None:
+        h['LONPOLE'] = c['lonpole']
+    if c.get('latpole') is not None:
+        h['LATPOLE'] = c['latpole']
     return h
 
 
@@ -109,7 +115,7 @@ def zenithal(c, x, y):
         else:
             raise ValueError(p)
         a0, d0 = c['crval'][0] * d2r, c['crval'][1] * d2r
-        dphi = phi - math.pi
+        dphi = phi - math.radians(c['lonpole'] if c.get('lonpole') is not None else 180.0)
         st, ct = np.sin(theta), np.cos(theta)
         dec = np.arcsin(st * math.sin(d0) + ct * math.cos(d0) * np.cos(dphi))
         ra = a0 + np.arctan2(-ct * np.sin(dphi), st * math.cos(d0) - ct * math.sin(d0) * np.cos(dphi))
@@ -179,7 +185,11 @@ def image_oracle(ctx, c, region=None):
     d01 = np.nanmax(np.abs(sky0 - sky1)) if fin.any() else 0.0
     if not same_nan or d01 > 1e-9:
         raise RuntimeError(f"astropy origin contract broken: origin0 vs origin1 differ by {d01}")
-    zra, zdec = zenithal(c, pts[:, 0], pts[:, 1])
+    if c.get('pv'):
+        ctx.count('oracle-astropy-only(PV terms)')     # the independent deprojection has no PV terms
+        zra, zdec = ra, dec
+    else:
+        zra, zdec = zenithal(c, pts[:, 0], pts[:, 1])
     if fin.any():
         dra = np.abs(((zra - ra + 180.0) % 360.0) - 180.0) * np.cos(np.radians(np.where(fin, dec, 0.0)))
         dz = max(np.nanmax(np.where(fin, dra, 0.0)), np.nanmax(np.where(fin, np.abs(zdec - dec), 0.0)))
@@ -317,6 +327,8 @@ def judge_image(ctx, c, orc, before, after, out_shape, lean_line, record=True):
     grid = orc['grid']
     must = np.tile(spec_sets(c, grid)['own'].ravel(), P)
     sig = dict(site='mask_plane' if c['entry'] == 'plane' else 'mask_file', what='blanked-set')
+    if c.get('debug'):
+        sig['logging'] = 'DEBUG'
     py_bad = None
     if after.shape != before.shape:
         py_bad = ('shape', None)
@@ -396,6 +408,11 @@ def lean_file_line(c, orc, before, after):
 def eval_images(ctx, cases, record=True, use_lean=True, shrink=True):
     """run a list of image cases IN ORDER in this process; returns list of outcomes
     (None | 'spec' | 'corr' | 'skip')"""
+    with debug_logging(any(c.get('debug') for c in cases)):
+        return _eval_images(ctx, cases, record, use_lean, shrink)
+
+
+def _eval_images(ctx, cases, record, use_lean, shrink):
     todo, lines = [], []
     outcomes = [None] * len(cases)
     shared = {}
@@ -539,18 +556,24 @@ def gen_image(rng, quick, small=False):
     return c
 
 
-def gen_history(rng, quick):
+def gen_history(rng, quick, nsteps=None):
     """a sequence of images masked one after the other in this process, with the same Region object
-    and the same three file names: identical shape / CRVAL / CRPIX / |CDELT| / region, differing in
-    axis direction (all four CDELT sign combinations), rotation, pixel dtype, memory layout, entry
-    point and number of planes.  Every step is judged against its own per-pixel oracle."""
-    proj = rng.choice(PROJS)
-    H, W = rng.randint(5, 18 if quick else 40), rng.randint(5, 24 if quick else 56)
+    and the same three file names.  All steps share shape / CRVAL / CRPIX / |CDELT| / region; the walk
+    changes exactly ONE header dimension per step, in rotation: sign of CDELT1, sign of CDELT2, rotation
+    (PC matrix), projection parameters PV2_1/PV2_2 (slant SIN), LONPOLE, LATPOLE; pixel dtype, memory
+    layout, entry point and number of planes vary freely.  So every pair of consecutive images differs in
+    one WCS keyword group only, and whatever an implementation remembers about the previous image is
+    wrong for the next unless it takes that group into account.  Every step is judged against its own
+    per-pixel oracle (astropy built from that step's header)."""
+    sin = rng.random() < 0.5
+    proj = 'SIN' if sin else rng.choice(PROJS)
+    wide = sin and rng.random() < 0.8  # wide enough for PV terms to move pixel centres by ~a pixel
+    H, W = rng.randint(12 if wide else 6, 18 if quick else 40), rng.randint(12 if wide else 6, 24 if quick else 56)
     if H == W:
         W += rng.randint(1, 4)
-    cd = round(rng.uniform(0.03, 0.3), 4)
+    cd = round(rng.uniform(1.5, 3.0), 4) if wide else round(rng.uniform(0.03, 0.3), 4)
     cdy = cd if rng.random() < 0.7 else round(cd * rng.choice([0.8, 1.25]), 5)
-    crval = [round(rng.uniform(0, 360), 3), round(rng.uniform(-70, 70), 3)]
+    crval = [round(rng.uniform(0, 360), 3), round(rng.uniform(-65, 65), 3)]
     crpix = [round(W / 2 + rng.uniform(-2, 2), 2), round(H / 2 + rng.uniform(-2, 2), 2)]
     base = dict(kind='image', proj=proj, H=H, W=W, cdelt=[-cd, cdy], crval=crval, crpix=crpix)
     w = make_wcs(base)
@@ -558,7 +581,7 @@ def gen_history(rng, quick):
     circles = []
     for _ in range(rng.choice([1, 2])):      # off-centre, so mirrored / rotated masks differ
         ang = rng.uniform(0, 2 * math.pi)
-        off = m * rng.uniform(0.15, 0.3)
+        off = m * (rng.uniform(0.3, 0.42) if wide else rng.uniform(0.15, 0.3))
         x, y = crpix[0] + off * math.cos(ang), crpix[1] + off * math.sin(ang)
         ra, dec = w.wcs_pix2world([[x, y]], 1)[0]
         if not (np.isfinite(ra) and np.isfinite(dec) and abs(dec) <= 89.9):
@@ -566,16 +589,33 @@ def gen_history(rng, quick):
         circles.append([float(ra), float(dec), float(m * min(cd, cdy) * rng.uniform(0.15, 0.3))])
     depth = max(3, min(12, int(math.ceil(math.log2(58.63 / (0.6 * min(cd, cdy)))))))
     base['region'] = dict(depth=depth, circles=circles, polys=[])
-    variants = [(-1, 1, 0.0), (1, -1, 0.0), (1, 1, 0.0), (-1, -1, 0.0),
-                (rng.choice([-1, 1]), rng.choice([-1, 1]), rng.choice([90.0, 180.0, 270.0])),
-                (-1, 1, round(rng.uniform(10, 80), 1))]
-    rng.shuffle(variants)
-    variants.append(variants[0])
+    # (LATPOLE cannot change a zenithal mapping; it is set at random once and left alone)
+    dims = ['sx', 'sy', 'rot', 'lonpole'] + (['pv', 'pv'] if sin else [])
+    rng.shuffle(dims)
+    st = dict(sx=rng.choice([-1, 1]), sy=rng.choice([-1, 1]), rot=0.0, pv=None, lonpole=None,
+              latpole=rng.choice([None, None, 90.0, round(rng.uniform(-80, 80), 1)]))
     steps = []
-    for sx, sy, rot in variants:
-        c = dict(base, cdelt=[sx * cd, sy * cdy], rot=rot, negate=rng.random() < 0.5,
+    for t in range(nsteps or (2 * len(dims) + 1)):
+        if t:
+            dim = dims[(t - 1) % len(dims)]
+            if dim in ('sx', 'sy'):
+                st[dim] = -st[dim]
+            elif dim == 'rot':
+                st['rot'] = rng.choice([v for v in (0.0, 90.0, 180.0, 270.0, round(rng.uniform(10, 80), 1)) if v != st['rot']])
+            elif dim == 'pv':
+                st['pv'] = None if (st['pv'] and rng.random() < 0.5) else \
+                    [round(rng.choice([-1, 1]) * rng.uniform(0.3, 1.0), 3), round(rng.choice([-1, 1]) * rng.uniform(0.3, 1.0), 3)]
+            elif dim == 'lonpole':
+                st['lonpole'] = rng.choice([v for v in (None, 150.0, 210.0, 90.0, 0.0, round(rng.uniform(100, 260), 1))
+                                            if v != st['lonpole']])
+            elif dim == 'latpole':
+                st['latpole'] = rng.choice([v for v in (None, 90.0, 0.0, round(rng.uniform(-80, 80), 1)) if v != st['latpole']])
+        c = dict(base, cdelt=[st['sx'] * cd, st['sy'] * cdy], rot=st['rot'], negate=rng.random() < 0.5,
                  dtype=rng.choice(['f4', 'f8']), prenan=rng.random() < 0.2, dseed=rng.randint(0, 2 ** 30),
                  fname='hist')
+        for k in ('pv', 'lonpole', 'latpole'):
+            if st[k] is not None:
+                c[k] = st[k]
         e = rng.random()
         if e < 0.45:
             c['entry'], c['shape'] = 'plane', [H, W]
@@ -617,6 +657,17 @@ def eval_history(ctx, hist, record=True):
     if record:
         ctx.count('history')
         ctx.count('history-steps', len(steps))
+        prev = None
+        for c in steps:
+            try:
+                own = spec_sets(dict(c, negate=False), image_oracle(ctx, c)['grid'])['own']
+            except Skip:
+                prev = None
+                continue
+            if prev is not None:
+                d = [k for k in ('cdelt', 'rot', 'pv', 'lonpole', 'latpole') if prev[0].get(k) != c.get(k)]
+                ctx.count('history-transition/' + '+'.join(d) + ('/visible' if (own != prev[1]).any() else '/same-mask'))
+            prev = (c, own)
     bad = [k for k, o in enumerate(outs) if o in ('spec', 'corr')]
     if not bad:
         return None
@@ -658,8 +709,9 @@ def eval_history(ctx, hist, record=True):
     ctx.fail('spec', dict(kind='history', steps=seq),
              f"call {len(seq)} of this sequence of {len(seq)} calls in one process gives a wrong mask, although the "
              f"same call alone in a fresh process is right (the result depends on the earlier call"
-             + (f": the two images differ only in CDELT {seq[0]['cdelt']} -> {last['cdelt']}, rotation "
-                f"{seq[0].get('rot', 0.0)} -> {last.get('rot', 0.0)}, dtype/layout/entry" if len(seq) == 2 else "")
+             + (": the two headers differ only in " + ", ".join(
+                 f"{k} {seq[0].get(k)} -> {last.get(k)}" for k in ('cdelt', 'rot', 'pv', 'lonpole', 'latpole')
+                 if seq[0].get(k) != last.get(k)) if len(seq) == 2 else "")
              + "). " + src['detail'],
              dict(src.get('signature') or {}, what='history-dependence'))
     return 'spec'
@@ -803,6 +855,86 @@ def gen_masked_table(rng, k):
                 entry=entry, fmt=fmt, ofmt=ofmt, hidden=('inside' if (entry == 'table' and k % 4 >= 2) else 'zero'))
 
 
+def gen_deep_table(rng, k):
+    """regions at HEALPix depth 15 / 16 (pixel numbers beyond 2^32) and an all-sky table whose rows
+    include, for several region pixels p, the centres of the pixels p + k*2^32 that exist (the same
+    offset inside other base cells, tens of degrees away): they are outside and must stay."""
+    import healpy as hp
+    depth = 15 + (k % 2)
+    cra, cdec = rng.uniform(0, 360), rng.uniform(-80, 80)
+    spec = dict(depth=depth, circles=[[cra, cdec, rng.uniform(8, 30) / 3600.0]], polys=[])
+    pix = pixel_set(build_region(spec))
+    nside = 2 ** depth
+    npix = 12 * nside ** 2
+    rows = []
+
+    def centre(q):
+        th, ph = hp.pix2ang(nside, int(q), nest=True)
+        return [float(np.degrees(ph)), float(90.0 - np.degrees(th))]
+    for p in [int(pix[rng.randrange(len(pix))]) for _ in range(4)] if len(pix) else []:
+        rows.append(centre(p))
+        for kk in range(-11, 12):
+            q = p + kk * 2 ** 32
+            if kk and 0 <= q < npix:
+                rows.append(centre(q))
+    for _ in range(10):
+        rows.append([rng.uniform(0, 360), rng.uniform(-90, 90)])
+    rows.append([float('nan'), 0.0])
+    rng.shuffle(rows)
+    entry, fmt = [('table', None), ('catalog', 'fits'), ('table', None), ('catalog', 'csv'), ('cli', 'fits')][k % 5]
+    return dict(kind='table', region=spec, coords=rows, names=rng.choice([['ra', 'dec'], ['RAJ2000', 'DEJ2000']]),
+                negate=bool((k // 2) % 2), unit=None, f32=False, colorder='mixed', entry=entry, fmt=fmt)
+
+
+def large_cases(rng):
+    """one deliberately large input per size-like dimension: > 2^16 pixels in a plane, > 2^16 rows"""
+    H, W = 2 ** 13 + 37, 8
+    c = dict(kind='image', proj='SIN', H=H, W=W, cdelt=[-0.002, 0.002], crval=[rng.uniform(0, 360), rng.uniform(-60, 60)],
+             crpix=[4.3, H / 2 + 0.4])
+    ra, dec = make_wcs(c).wcs_pix2world([[4.0, rng.uniform(0.3, 0.7) * H]], 1)[0]
+    c.update(region=dict(depth=12, circles=[[float(ra), float(dec), 0.2 * H * 0.002]], polys=[]), negate=rng.random() < 0.5,
+             dtype='f4', prenan=False, dseed=rng.randint(0, 2 ** 30), entry=rng.choice(['plane', 'file']), shape=[H, W])
+    n = 2 ** 16 + 4321
+    cra, cdec, crad = rng.uniform(0, 360), rng.uniform(-60, 60), 25.0
+    rs = np.random.RandomState(rng.randint(0, 2 ** 30))
+    ra = rs.uniform(0, 360, n)
+    dec = np.degrees(np.arcsin(rs.uniform(-1, 1, n)))
+    t = dict(kind='table', region=dict(depth=7, circles=[[cra, cdec, crad]], polys=[]),
+             coords=np.c_[ra, dec].tolist(), names=['ra', 'dec'], negate=rng.random() < 0.5, unit=None, f32=False,
+             colorder='first', entry='table', fmt=None)
+    return [c], [t]
+
+
+class debug_logging:
+    """root logger and the 'Aegean' logger at DEBUG with silent handlers (what `--debug` or a host
+    application would do); results must not depend on it"""
+
+    def __init__(self, on):
+        self.on = on
+
+    def __enter__(self):
+        if not self.on:
+            return
+        import logging
+        self.saved = []
+        self.disabled = logging.root.manager.disable
+        logging.disable(logging.NOTSET)
+        for name in (None, 'Aegean'):
+            lg = logging.getLogger(name)
+            self.saved.append((lg, lg.level, lg.handlers[:], lg.propagate))
+            lg.handlers = [logging.NullHandler()]
+            lg.setLevel(logging.DEBUG)
+
+    def __exit__(self, *a):
+        if not self.on:
+            return
+        import logging
+        for lg, lvl, hs, prop in self.saved:
+            lg.handlers = hs
+            lg.setLevel(lvl)
+        logging.disable(self.disabled)
+
+
 def make_table(c):
     from astropy.table import Table, Column
     from astropy.table import MaskedColumn
@@ -847,25 +979,23 @@ def table_codes(c, tab, region):
 
 
 def fingerprints(tab):
-    """one 60-bit fingerprint per row over ALL columns (values normalised through repr of python scalars)"""
-    out = []
-    cols = sorted(tab.colnames)
-    for row in tab:
-        vals = []
-        for k in cols:
-            v = row[k]
-            if isinstance(v, (bytes, np.bytes_)):
-                v = v.decode()
-            if isinstance(v, (str, np.str_)):
-                vals.append(('s', str(v).strip()))
-            elif np.ma.is_masked(v):
-                vals.append(('f', 'nan'))
-            elif isinstance(v, (float, np.floating)):
-                vals.append(('f', common.f2h(float(v)) if v == v else 'nan'))
-            else:
-                vals.append(('i', int(v)))
-        out.append(int(hashlib.sha1(repr(vals).encode()).hexdigest()[:15], 16))
-    return out
+    """one 60-bit fingerprint per row over ALL columns (values normalised: strings stripped, floats as
+    bit patterns with every NaN / masked element alike, integers as integers); column-wise for speed"""
+    toks = []
+    for k in sorted(tab.colnames):
+        col = tab[k]
+        kind = col.dtype.kind
+        if kind in 'SU':
+            vals = [('s', (v.decode() if isinstance(v, bytes) else str(v)).strip())
+                    for v in np.ma.filled(np.ma.asarray(col), '').tolist()]
+        elif kind == 'f':
+            arr = np.ma.filled(np.ma.asarray(col).astype(np.float64), np.nan)
+            vals = [('f', 'nan' if v != v else common.f2h(v)) for v in arr.tolist()]
+        else:
+            m = np.ma.getmaskarray(np.ma.asarray(col))
+            vals = [('f', 'nan') if mk else ('i', int(v)) for v, mk in zip(np.ma.getdata(np.ma.asarray(col)).tolist(), m.tolist())]
+        toks.append(vals)
+    return [int(hashlib.sha1(repr(list(r)).encode()).hexdigest()[:15], 16) for r in zip(*toks)] if toks else []
 
 
 def run_table_impl(ctx, c, region):
@@ -909,12 +1039,21 @@ def run_table_impl(ctx, c, region):
 
 
 def eval_tables(ctx, cases, record=True, use_lean=True, shrink=True):
+    with debug_logging(any(c.get('debug') for c in cases)):
+        return _eval_tables(ctx, cases, record, use_lean, shrink)
+
+
+def _eval_tables(ctx, cases, record, use_lean, shrink):
     todo, lines = [], []
     outcomes = [None] * len(cases)
     for n, c in enumerate(cases):
         region = build_region(c['region'])
         sig = dict(site='mask_table' if c['entry'] == 'table' else 'mask_catalog', what='rows',
                    empty=len(c['coords']) == 0)
+        if c.get('debug'):
+            sig['logging'] = 'DEBUG'
+        if c['region']['depth'] >= 15:
+            sig['deep_region'] = True
         # harness-side preparation (not the implementation): an unreadable input file is not a finding
         if c['entry'] != 'table' and len(c['coords']) == 0 and c['fmt'] == 'csv':
             c = dict(c, fmt='fits')
@@ -1074,8 +1213,27 @@ def run(ctx):
     tabs = [gen_table(rng, ctx.quick) for _ in range(n_tab)]
     eval_tables(ctx, tabs)
     eval_tables(ctx, [gen_masked_table(rng, k) for k in range(24 if ctx.quick else 300)])
+    eval_tables(ctx, [gen_deep_table(rng, k) for k in range(10 if ctx.quick else 100)])
     for _ in range(8 if ctx.quick else 60):
         eval_history(ctx, gen_history(rng, ctx.quick))
+    # large inputs (Python Spec only: the driver's table lookup is quadratic)
+    for _ in range(1 if ctx.quick else 3):
+        li, lt = large_cases(rng)
+        eval_images(ctx, li, use_lean=False, shrink=False)
+        eval_tables(ctx, lt, use_lean=False)
+        ctx.count('large-image(>2^16 pixels)')
+        ctx.count('large-table(>2^16 rows)')
+    # debug slice: the corpus and a sample again with the loggers at DEBUG
+    dbg_i = [dict(c, debug=True) for c in corp if c['kind'] == 'image'] + \
+            [dict(gen_image(rng, True, small=(k % 2 == 0)), debug=True) for k in range(10 if ctx.quick else 60)]
+    dbg_t = [dict(c, debug=True) for c in corp if c['kind'] == 'table'] + \
+            [dict(gen_table(rng, True), debug=True) for _ in range(8 if ctx.quick else 40)] + \
+            [dict(gen_masked_table(rng, k), debug=True) for k in range(6)] + [dict(gen_deep_table(rng, 1), debug=True)]
+    eval_images(ctx, dbg_i)
+    eval_tables(ctx, dbg_t)
+    h = gen_history(rng, True)
+    eval_history(ctx, dict(h, steps=[dict(x, debug=True) for x in h['steps']]))
+    ctx.count('debug-logging-slice', len(dbg_i) + len(dbg_t) + len(h['steps']))
     if ctx.driver_ok:
         index_probe(ctx)
 
